@@ -22,6 +22,15 @@ def _key_for_shape(case):
     for t in tags:
         if t.startswith("key:"):
             return "shape-mismatch:" + t[4:]
+    fam = prog.get("family", "")
+    if fam == "rank-n-mutant":
+        return "shape-mismatch:wrong-rank-mutant-accepted"
+    if fam == "rank-n":
+        return "shape-mismatch:rank-n"
+    if "io-alias" in tags:
+        return "shape-mismatch:io-alias:" + ("run_io" if "run_io=1" in case.get("settings", "") else "no-run_io")
+    if "plain-alias" in tags:
+        return "shape-mismatch:plain-alias"
     if case.get("annotated_record_order") or "permuted-record-fields" in tags:
         return "shape-mismatch:permuted-record-fields"
     if "imports-io-module" in tags and "run_io=1" in case.get("settings", "") and "IO" in str(case.get("type", "")):
@@ -149,6 +158,8 @@ def run(ctx):
         ctx.coverage["samples"] = stats.get("samples", [])[:6]
         ctx.coverage["candidates"] = stats["candidates"]
         ctx.coverage["accepted_by_checker"] = stats["accepted"]
+        ctx.coverage["checker_verdict_by_family"] = {k[6:]: v for k, v in hist.items() if k.startswith("check:")}
+        ctx.coverage["template_families"] = {k[7:]: v for k, v in hist.items() if k.startswith("family:")}
         ctx.coverage["shape_checks_by_extracted_check_raw"] = stats["shape_lines"]
         ctx.coverage["types_with_opaque_parts"] = stats["types_with_opaque_parts"]
         ctx.coverage["constructed_rejected_by_checker"] = len(stats.get("constructed_rejected_by_checker", []))
